@@ -739,6 +739,7 @@ def att_mnemo_generic(i, s, m):
             (8, 16): m[:4] + "bw",
             (8, 32): m[:4] + "bl",
             (8, 64): m[:4] + "bq",
+            (16, 16): m[:4] + "ww",
             (16, 32): m[:4] + "wl",
             (16, 64): m[:4] + "wq",
             (32, 64): m[:4] + "lq",
